@@ -120,21 +120,43 @@ theorem benign_env_step_keeps_good {s s' : State κ ν} {x : Item κ ν} {l : La
     (hb : Benign x l) (hst : step fixedCfg s l = some s') : Good s' x :=
   good_env_step h hb hst
 
-/-- **late_bound**: the loop's timer is never early and is late by exactly the clock time that
-passed between its reading the clock (`Now()`, ghost `readAt`) and its creating the timer
-(`NewTimer()`, ghost `armAt`): while between the two calls the computed duration is
-`scheduled − readAt`; once armed the timer fires at `scheduled + (armAt − readAt)`. -/
+/-- **late_bound**: the loop's timer fires at `armAt + Sub(scheduled, readAt)` where `readAt` is the
+clock value the loop read (`Now()`), `armAt` the clock value at which it created the timer
+(`NewTimer()`) and `Sub` is Go's saturating `Time.Sub` (`satDur`: spans beyond ±2^63 ns ≈ 292 years
+are clamped).  So unless the item is more than 2^63 ns ahead of the clock, the timer fires at
+`scheduled + (armAt − readAt)`: never early, late by exactly the clock time between the two calls. -/
 theorem late_bound {s : State κ ν} (hr : Reach (lts fixedCfg) s) {r : Item κ ν} :
-    (s.pc = .arming r → s.timer = r.time - s.readAt ∧ s.readAt ≤ s.now) ∧
-    (s.pc = .armed r → s.timer = r.time + (s.armAt - s.readAt) ∧ s.readAt ≤ s.armAt ∧ s.armAt ≤ s.now) :=
-  ⟨(invT hr).1 r, (invT hr).2 r⟩
+    (s.pc = .arming r → s.timer = satDur (r.time - s.readAt) ∧ s.readAt ≤ s.now) ∧
+    (s.pc = .armed r → s.timer = s.armAt + satDur (r.time - s.readAt) ∧ s.readAt ≤ s.armAt ∧ s.armAt ≤ s.now) ∧
+    (s.pc = .armed r → r.time - s.readAt ≤ maxDur → s.timer = r.time + (s.armAt - s.readAt)) := by
+  have hT := invT hr
+  refine ⟨fun h => ⟨(hT.2.1 r h).1, (hT.2.1 r h).2.2.1⟩,
+    fun h => ⟨(hT.2.2 r h).1, (hT.2.2 r h).2.2.1, (hT.2.2 r h).2.2.2.1⟩, ?_⟩
+  intro h hle
+  have h1 := hT.2.2 r h
+  rcases satDur_cases (r.time - s.readAt) with ⟨_, _, hs⟩ | ⟨hgt, _⟩ | ⟨hlt, _⟩
+  · rw [h1.1, hs]; omega
+  · omega
+  · have := h1.2.2.2.2
+    simp only [halfMs, Kit.Generated.C06.runNowMarginNs, minDur] at *
+    omega
 
-/-- If the clock did not advance between the two calls, the timer is exact, hence `Timely` holds
-whenever the head it was armed for is due. -/
+/-- If the clock did not advance between the two calls (and the item is less than 2^63 ns ahead), the
+timer is exact, hence `Timely` holds whenever the head it was armed for is due. -/
 theorem timer_exact_without_advance {s : State κ ν} (hr : Reach (lts fixedCfg) s) {r : Item κ ν}
-    (hpc : s.pc = .armed r) (h : s.armAt = s.readAt) : s.timer = r.time := by
-  have := ((invT hr).2 r hpc).1
+    (hpc : s.pc = .armed r) (h : s.armAt = s.readAt) (hle : r.time - s.readAt ≤ maxDur) : s.timer = r.time := by
+  have := (late_bound hr (r := r)).2.2 hpc hle
   rw [this, h]; omega
+
+/-- **saturation**: an item scheduled more than 2^63 ns (≈ 292 years) after the clock value the loop
+read gets a timer of exactly `maxDuration` — the loop sleeps ≈ 292 years (or until a reset). -/
+theorem far_future_timer_saturates {s : State κ ν} (hr : Reach (lts fixedCfg) s) {r : Item κ ν}
+    (hpc : s.pc = .armed r) (hfar : maxDur < r.time - s.readAt) : s.timer = s.armAt + maxDur := by
+  have h1 := (invT hr).2.2 r hpc
+  rcases satDur_cases (r.time - s.readAt) with ⟨hle, _, _⟩ | ⟨_, hs⟩ | ⟨hlt, _⟩
+  · omega
+  · rw [h1.1, hs]
+  · simp only [maxDur, minDur] at *; omega
 
 /-- **runs_when_clock_reaches** (none stranded, with the clock): in every reachable open state, a
 live item `x` is executed by the loop alone as soon as the clock has reached both its scheduled
@@ -152,13 +174,15 @@ between the loop's `Now()` and `NewTimer()`. -/
 theorem wake_bound_le {s : State κ ν} (hr : Reach (lts fixedCfg) s) {r x : Item κ ν}
     (hpc : s.pc = .armed r) (hreset : s.reset = false) (hx : x ∈ s.q) :
     wakeBound s ≤ x.time + (s.armAt - s.readAt) := by
-  have h1 := ((invT hr).2 r hpc).1
+  have h1 := (invT hr).2.2 r hpc
   have h2 := (invB hr).2 r (Or.inr (Or.inr (Or.inr hpc)))
   rcases h2 with h2 | h2
   · simp [hreset] at h2
   · have := h2 x hx
     simp only [wakeBound, hpc]
-    omega
+    have h3 := h1.2.2.2.2
+    rcases satDur_cases (r.time - s.readAt) with ⟨_, _, hs⟩ | ⟨hgt, hs⟩ | ⟨hlt, hs⟩ <;>
+      simp only [halfMs, Kit.Generated.C06.runNowMarginNs, maxDur, minDur] at * <;> omega
 
 /-- **exactly_once** (at most once; "at least once" is `none_stranded`): a callback for `r` is
 preceded by exactly one pop of `r` and neither preceded nor followed by another callback for `r`. -/
@@ -192,13 +216,17 @@ theorem popped_once {s : State κ ν} (hr : Reach (lts fixedCfg) s) {post pre : 
   exact h2.2.1 (by simp)
 
 /-- **not_early**: a callback starts only when the clock is within half a millisecond of (or past)
-the item's scheduled time. -/
+the item's scheduled time — or, for an item scheduled more than 2^63 ns ahead whose timer duration
+saturated (`Time.Sub` clamps at ≈ 292 years), not before the clock has run for 2^63 ns since the
+processor's clock origin (`saturation_early_witness` shows this exception is real in the model). -/
 theorem not_early {s : State κ ν} (hr : Reach (lts fixedCfg) s) {post pre : List (Event κ ν)}
     {r : Item κ ν} {n : Int} (hl : s.log = post ++ .exec r n :: pre) :
-    r.time - halfMs ≤ n := by
+    r.time - halfMs ≤ n ∨ maxDur ≤ n := by
   have h1 := logOK_split (logOK hr) hl
   simp only [EvOK] at h1
-  exact Int.le_of_lt h1.1
+  rcases h1.1 with h | h
+  · exact Or.inl (Int.le_of_lt h)
+  · exact Or.inr h
 
 /-- **in_order**: every popped (hence every executed) item was live and the earliest live item at
 the moment it was popped. -/
@@ -362,7 +390,7 @@ theorem accepted_trace_has_run (cfg : Cfg) (tr : List (Obs κ ν)) (h : accepts 
 /-- End to end: in a trace accepted by the model of the current code every observed callback
 (`exec id key scheduled now`, stamped by the harness with the injected clock) is not early. -/
 theorem accepted_callbacks_not_early (tr : List (Obs κ ν)) (h : accepts fixedCfg tr = true)
-    {id : Nat} {k : κ} {tm now : Int} (he : Obs.exec id k tm now ∈ tr) : tm - halfMs ≤ now := by
+    {id : Nat} {k : κ} {tm now : Int} (he : Obs.exec id k tm now ∈ tr) : tm - halfMs ≤ now ∨ maxDur ≤ now := by
   obtain ⟨ls, s', _, _, hex, _⟩ := accepted_trace_has_run fixedCfg tr h
   exact exec_callbacks_not_early hex init Reach.init rfl id k tm now he
 
@@ -455,7 +483,7 @@ def closeLoserState : State Nat Unit :=
 
 theorem close_loser_run : runFrom ⟨false⟩ init closeLoserSchedule = some closeLoserState := by
   simp [runFrom, closeLoserSchedule, closeLoserState, step, init, process, enqGuard, lookup, remove,
-    Queue.insert, IsHead, IsMin, pop, halfMs, Kit.Generated.C06.runNowMarginNs]
+    Queue.insert, IsHead, IsMin, pop, halfMs, Kit.Generated.C06.runNowMarginNs, satDur, maxDur, minDur]
 
 /-- **close_loser_witness**: with the `Close` of the unchanged tree (`fixed = false`) a callback
 starts after a call to `Close` has returned — `close_quiescent_trace` is false there. -/
@@ -480,7 +508,7 @@ def demoState : State Nat Unit :=
 
 theorem demo_run : runFrom fixedCfg init demoSchedule = some demoState := by
   simp [runFrom, demoSchedule, demoState, step, init, process, enqGuard, deqGuard, lookup, remove,
-    Queue.insert, IsHead, IsMin, pop, halfMs, Kit.Generated.C06.runNowMarginNs]
+    Queue.insert, IsHead, IsMin, pop, halfMs, Kit.Generated.C06.runNowMarginNs, satDur, maxDur, minDur]
 
 theorem demo_reach : Reach (lts fixedCfg) demoState := reach_of_run Reach.init demo_run
 
@@ -519,12 +547,37 @@ theorem late_run : runFrom fixedCfg init
     [.enqueue 1 10000000 () true, .peek (some ⟨1, 10000000, (), 0⟩), .pollNone, .decide, .advance 4000000, .arm]
     = some lateState := by
   simp [runFrom, lateState, step, init, process, enqGuard, lookup, remove, Queue.insert, IsHead, IsMin,
-    halfMs, Kit.Generated.C06.runNowMarginNs]
+    halfMs, Kit.Generated.C06.runNowMarginNs, satDur, maxDur, minDur]
 
 /-- **late_witness**: the lateness `late_bound` allows does occur — a reachable state of the current
 code in which the item is due at 10 ms but the loop's only wake-up is at 14 ms. -/
 theorem late_witness : Reach (lts fixedCfg) lateState ∧ lateState.timer = 14000000 ∧
     (∀ x ∈ lateState.q, x.time = 10000000) ∧ lateState.armAt - lateState.readAt = 4000000 :=
   ⟨reach_of_run Reach.init late_run, rfl, by simp [lateState], rfl⟩
+
+/-- An item scheduled 2^63 + 9 ns after the clock origin: `Time.Sub` saturates, the timer is 2^63 − 1 ns;
+when the clock has run that long the timer fires and the item is executed 10 ns before its time. -/
+def saturatedState : State Nat Unit :=
+  { q := [], token := .loop, reset := false, stopped := false, stopClosed := false,
+    pc := .running ⟨1, 9223372036854775817, (), 0⟩, cpc := .idle, now := 9223372036854775807, nextId := 1,
+    log := [.exec ⟨1, 9223372036854775817, (), 0⟩ 9223372036854775807, .pop ⟨1, 9223372036854775817, (), 0⟩,
+            .enq ⟨1, 9223372036854775817, (), 0⟩],
+    timer := 0, readAt := 0, armAt := 0, root := none }
+
+theorem saturated_run : runFrom fixedCfg init
+    [.enqueue 1 9223372036854775817 () true, .peek (some ⟨1, 9223372036854775817, (), 0⟩), .pollNone, .decide, .arm,
+     .advance 9223372036854775807, .timerFire, .execCheck (some ⟨1, 9223372036854775817, (), 0⟩), .cbStart]
+    = some saturatedState := by
+  simp [runFrom, saturatedState, step, init, process, enqGuard, lookup, remove, Queue.insert, IsHead, IsMin, pop,
+    halfMs, Kit.Generated.C06.runNowMarginNs, satDur, maxDur, minDur]
+
+/-- **saturation_early_witness**: the second disjunct of `not_early` is needed — in the model of the
+current code an item more than 2^63 ns ahead is executed (10 ns) early once the clock has run for
+2^63 − 1 ns, because its timer duration saturated and `execute` does not look at the clock again. -/
+theorem saturation_early_witness :
+    Reach (lts fixedCfg) saturatedState ∧
+    Event.exec (⟨1, 9223372036854775817, (), 0⟩ : Item Nat Unit) 9223372036854775807 ∈ saturatedState.log ∧
+    (9223372036854775807 : Int) < 9223372036854775817 - halfMs + halfMs - 9 :=
+  ⟨reach_of_run Reach.init saturated_run, by simp [saturatedState], by decide⟩
 
 end Kit.Processor.C06
